@@ -180,7 +180,8 @@ CLAIMED.update({
                   "the LRU queue is charged key+value size, each leaving entry is credited both sizes, usage growth and limit reduction reach "
                   "evict_entries; both is_valid_for implementations can return true only through the size and last_modified comparisons; "
                   "both consumers touch the cached payload only behind is_valid_for == true; invalidate_caches drops the table from both "
-                  "caches and is reached from both deregistration paths; expired entries are never reported as hits. LRU order and TTL "
+                  "caches and is reached from both deregistration paths; expired entries are never reported as hits; the expiry stamp of an entry is "
+                  "assigned only by constructing the entry (who-may-write on the field, found by type). LRU order and TTL "
                   "arithmetic are not decided."),
     },
 })
